@@ -411,6 +411,15 @@ impl PeerDHTRecord {
             ));
         }
 
+        // A received record must satisfy the same bounds as a constructed one. This
+        // also closes an ambiguity of the signed encoding, in which an absent name and
+        // an (unconstructible) empty name are both written as length 0.
+        Self::validate_inputs(&self.name, &self.endpoints, self.ttl).map_err(|e| {
+            P2PError::Security(SecurityError::SignatureVerificationFailed(
+                format!("Record outside documented bounds: {e}").into(),
+            ))
+        })?;
+
         let message = self.create_signable_message()?;
         let ok = crate::quantum_crypto::ml_dsa_verify(&self.public_key, &message, &self.signature)
             .map_err(|e| {
